@@ -27,6 +27,8 @@ use std::panic::AssertUnwindSafe;
 use std::sync::mpsc;
 
 const NS: u64 = 1_000_000_000;
+/// which referential-integrity variant the tree under test has (see `probe_refint`)
+static STRICT: std::sync::atomic::AtomicBool = std::sync::atomic::AtomicBool::new(false);
 const FOREIGN: u64 = 9999;
 
 #[derive(Clone, Debug)]
@@ -330,6 +332,7 @@ fn c_op(op: &Op, dynch: &[(usize, Vec<u64>)]) -> String {
         Op::Create(l) => capp(
             "OCreate",
             &[
+                cbool(STRICT.load(std::sync::atomic::Ordering::Relaxed)),
                 clist(l, |ne| capp("mknew", &[cn(ne.id as u64), cbool(ne.grp), cbool(ne.dynk > 0), ul(&ne.mem)])),
                 c_dynch(dynch),
             ],
@@ -337,6 +340,7 @@ fn c_op(op: &Op, dynch: &[(usize, Vec<u64>)]) -> String {
         Op::SetMem(chs, _) => capp(
             "OMod",
             &[
+                cbool(STRICT.load(std::sync::atomic::Ordering::Relaxed)),
                 clist(chs, |(g, _)| cn(*g as u64)),
                 clist(chs, |(g, l)| {
                     let mut s: Vec<u64> = l.iter().map(|x| *x as u64).collect();
@@ -347,7 +351,10 @@ fn c_op(op: &Op, dynch: &[(usize, Vec<u64>)]) -> String {
                 c_dynch(dynch),
             ],
         ),
-        Op::Tag(e, _) => capp("OMod", &[clist(&[*e], |x| cn(*x as u64)), "[]".into(), c_dynch(dynch)]),
+        Op::Tag(e, _) => capp(
+            "OMod",
+            &[cbool(STRICT.load(std::sync::atomic::Ordering::Relaxed)), clist(&[*e], |x| cn(*x as u64)), "[]".into(), c_dynch(dynch)],
+        ),
         Op::Delete(ids) => {
             let mut s: Vec<usize> = ids.clone();
             s.sort();
@@ -466,11 +473,29 @@ impl Hist {
     }
 }
 
+/// Determines which referential-integrity variant the tree has: a modify that adds a RECYCLED entry
+/// together with a new live reference is accepted by the variant whose existence test masks recycled
+/// entries only after the union (false), refused by the variant that requires every reference to be live (true).
+fn probe_refint(wk: &Worker) -> bool {
+    wk.tx.send(Cmd::World(world(65000, vec![true, true, false], vec![0; 3]))).expect("send");
+    wk.wait_ready();
+    let ne = |id: usize, grp: bool| NewEnt { id, grp, dynk: 0, tag: 0, mem: vec![] };
+    let r1 = wk.run(&Op::Create(vec![ne(0, true), ne(1, true), ne(2, false)]), 120).expect("probe create");
+    let r2 = wk.run(&Op::Delete(vec![1]), 120).expect("probe delete");
+    let r3 = wk.run(&Op::SetMem(vec![(0, vec![1, 2])], false), 120).expect("probe modify");
+    assert!(r1.0 == 0 && r2.0 == 0, "refint probe setup failed");
+    let strict = r3.0 != 0;
+    let _ = wk.run(&Op::Delete(vec![0, 2]), 120);
+    STRICT.store(strict, std::sync::atomic::Ordering::Relaxed);
+    strict
+}
+
 /// `--probe`: the two refuting scenarios on the real server. Prints to stderr only.
 fn probe() {
     // 1. a cycle that loses its only external parent keeps the stale MemberOf
     let wk = spawn_worker();
     wk.wait_ready();
+    eprintln!("PROBE refint variant: strict={}", probe_refint(&wk));
     let grp = vec![true; 4];
     wk.tx.send(Cmd::World(world(60000, grp.clone(), vec![0; 4]))).expect("send");
     wk.wait_ready();
@@ -540,7 +565,7 @@ admin, create of further entries; a few ops target non-live entries or reference
 non-trivial = the history reached a state with a cycle among live groups OR (nesting depth >= 2 AND a committed delete AND a committed revive)"
         .into();
 
-    let n_hist = if args.thorough { 1500 } else { 130 };
+    let n_hist = if args.thorough { 900 } else { 130 };
     let (len_lo, len_hi) = if args.thorough { (15, 40) } else { (10, 18) };
     let per_server = 60;
     let limit_s = 12;
@@ -549,6 +574,8 @@ non-trivial = the history reached a state with a cycle among live groups OR (nes
 
     let mut wk = spawn_worker();
     wk.wait_ready();
+    let strict = probe_refint(&wk);
+    sink.bump(if strict { "refint_variant_strict" } else { "refint_variant_union_masked" });
     let mut on_server = 0;
     for hid in 0..n_hist {
         if on_server >= per_server {
